@@ -745,7 +745,58 @@ def check_C19(ctx):
                                    "the build without the robotics feature cannot be compared in the same binary: option off stands for it"])
 
 
+# ------------------------------------------------------------------------------------------------
+# C01 (Totality)
+# ------------------------------------------------------------------------------------------------
+def check_C01(ctx):
+    q = ctx.quick()
+    lim = dict(MaxTotalReplayed=1000000, MaxStackDepth=64, MaxPerAnchor=1000000, NormalizeAnchoredEmptyQuoted=False)
+    run_mc(ctx, "MC_Totality", dict(MaxEv=5 if q else 7, Names=[1, 2], Scalars="<- ScalarsAB", AllowContainerKeys=False, **lim), ["MeasureFits"],
+           properties=["Progress", "Terminates"], workers=8, timeout=3000, label="MC_Totality", spec="FairSpec", coverage=False)
+    run_mc(ctx, "MC_Totality", dict(MaxEv=5 if q else 6, Names=[1, 2], Scalars="<- ScalarsAB", AllowContainerKeys=False,
+                                    MaxTotalReplayed=2, MaxStackDepth=1, MaxPerAnchor=1, NormalizeAnchoredEmptyQuoted=False), ["MeasureFits"],
+           properties=["Progress", "Terminates"], workers=8, timeout=3000, label="MC_Totality_limits", spec="FairSpec", coverage=False)
+    cases = ctx.path("cases.ndjson")
+    run_mc(ctx, "MC_Tokens", dict(MaxLen=2 if q else 3), ["EmitCase"], workers=4, timeout=3000, cases_out=cases, label="MC_Tokens", coverage=False)
+    ctx.exhaustive = True
+    recs = ctx.path("recs.ndjson")
+    wdir = ctx.path("w")
+    os.makedirs(wdir, exist_ok=True)
+    st = run_vh(ctx, ["c01", "--cases", cases, "--out", recs, "--work", wdir, "--mutations", 300 if q else 6000, "--seed", ctx.seed,
+                      "--thorough", 0 if q else 1, "--jobs", 14], timeout=3 * 3600)
+    ctx.evaluations += st["calls"]
+    ctx.distinct_nontrivial += st["nontrivial"]
+    ctx.samples += st["samples"]
+    for k in ("inputs", "calls", "values", "errors", "bad_inputs", "families"):
+        ctx.notes[k] = st[k]
+    mism = run_tv(ctx, "TV_Totality", recs, timeout=3000, shards=4)
+    def directive_eof(rec, d):
+        bad = (d.get("bad") or [{}])[0] if isinstance(d, dict) else {}
+        if d.get("verdict") != "timeout" or bad.get("entry") not in ("reader", "read", "wd_reader"):
+            return False
+        # the input's last line is an unterminated % directive
+        s = rec.get("sample", "")
+        last = s.replace("\r", "\n").split("\n")[-1]
+        return rec.get("len", 0) <= 60 and last.lstrip("\ufeff").startswith("%")
+    matchers = {"C01-directive-eof-hang": directive_eof}
+    classify_mismatches(ctx, mism, recs, matchers, "an entry point panicked, aborted the process, did not return within 20 s, or an error failed to render (Totality!RunVerdict)")
+    return finish(ctx, "model_checking",
+                  "progress: on every well-formed raw stream of <= 5/7 events TLC checks that each step of the event pump decreases a measure "
+                  "and that the pump terminates under weak fairness, with unlimited and with tight alias limits; outcome contract: every "
+                  "string of <= 2/3 tokens over a 35-token YAML indicator alphabet (TLC-enumerated), a 15-document corpus with 300/6000 "
+                  "mutations (bit flips, deletions, duplications, truncations, inserted indicators / invalid UTF-8), deep and wide inputs "
+                  "(flow / block sequences and mappings, unclosed flow, complex keys, a deep anchored node replayed three times, wide "
+                  "sequences, long scalars, many documents, sign and parenthesis runs) at nesting 1999, 2000, 2001 and 20 000 (thorough: to "
+                  "1 000 000), an alias bomb; each x 9 entry points x 10 target types x 3 option vectors (240 / 138 calls per input), run "
+                  "on the main thread of child processes with an 8 MiB stack, a 6 GiB address-space limit and a 20 s per-call watchdog; "
+                  "every error is rendered four ways; non-trivial = inputs on which some calls return values and others errors",
+                  ASSUME_COMMON + ["a call that terminates after more than 20 s would be reported as a hang; nested complex keys, whose cost "
+                                   "grows about cubically with depth (8 s at depth 1600), are therefore generated to depth 400 only",
+                                   "release build of the crate (debug builds use more stack per frame)"])
+
+
 CHECKS = {
+    "C01": check_C01,
     "C02": check_C02,
     "C14": check_C14,
     "C16": check_C16,
